@@ -32,9 +32,15 @@ func (p *c17) Rule() string {
 		"as every argument of every other catalogued function; the (function, position) pairs are enumerated round-robin over the case index so a run covers all of them — " +
 		"plus random deep trees, string-literal forms (doubled quotes, backslashes, parentheses, @) and templates with surrounding text, @@ and @identifier forms. " +
 		"Operands are literals and legacy references (contact.age, flow.q1, step.value, extra.n …) bound to random small numbers / short ASCII strings / fixed dates. " +
+		"Number literals are written in every form the legacy DECIMAL token admits (leading zeros 007 010 0012, trailing fractional zeros 2.0 2.50, both, under a unary minus, 5-10 digit values) at every position that takes a number — " +
+		"in particular as the word / field index and stop of WORD, WORD_SLICE, FIELD over texts of 13 words / fields, where the migration rewrites the literal — and always denote their decimal value. " +
+		"Besides a fixed catalogue of references, every case draws run result names, contact field keys and webhook keys from the neighbourhood of each word the reference mapping table anchors on " +
+		"(contact_age contacted contacts xcontact my_flow steps value2 tel_number categories … : exact, extended, truncated, prefixed, doubled, digit-first forms of contact flow step extra parent child date channel, of the new top levels and of the property / URN scheme names) " +
+		"and uses them in every scope form (flow.X flow.X.value .category .text .time, child.X…, parent.X…, extra.flow.X…, contact.X flow.contact.X step.contact.X parent.contact.X child.contact.X, extra.X extra.X.k extra.k.X extra.k.X.j) as @identifier, alone in @(…), as an operand and as a call argument; " +
+		"the operand is bound where the reference denotes it (results / child.results / parent.results, fields / parent.fields / child.fields, legacy_extra), next to a neutrally named twin; the built-in contact properties, URN forms, channel and step.attachments.N are bound too. " +
 		"Each template is migrated by expressions.MigrateTemplate and evaluated by excellent.Evaluator.Template in a context binding the migrated references; " +
 		"the value is compared with an independent reference evaluation of the legacy tree (numbers as decimals rounded to 6 places, text exactly, booleans ignoring the TRUE/true rendering change, dates through DAY/MONTH/YEAR/WEEKDAY/DAYS). " +
-		"Every mismatch is shrunk and put through repair experiments (parenthesise each call/operator of the legacy source in turn; replace backslashes / quotes in literals; separate an expression from the following text) which give the signature. Non-trivial case = at least one template whose value was compared and in which a function call is nested under an operator or inside another call; " +
+		"Every mismatch is shrunk and put through repair experiments (write the number literals canonically; count a negative word index from the front; use the neutrally named twin of a drawn name; parenthesise each call/operator of the legacy source in turn; replace backslashes / quotes in literals; separate an expression from the following text) which give the signature. Non-trivial case = at least one template whose value was compared and in which a function call is nested under an operator or inside another call; " +
 		"distinct = distinct bundle text."
 }
 
@@ -72,6 +78,11 @@ func (p *c17) Floors(tier string) []string {
 		"clause.value.compared", "value.num", "value.text", "value.bool", "value.approx",
 		"nested.fn_under_operator", "nested.fn_in_fn", "literal.with_backslash", "literal.with_doubled_quote",
 		"template.with_text", "template.with_atat", "template.identifier_form", "options.default_to_self", "options.raw_dates",
+		"numform.leading_zeros.compared", "numform.trailing_zeros.compared", "numform.negative_noncanonical.compared", "numform.large_literal.compared",
+		"numform.index_param_noncanonical.compared", "numform.index_param_octal_lookalike.compared",
+		"reference.builtin_property.compared", "reference.drawn_name.compared", "reference.colliding_name.compared",
+		"reference.colliding_name.identifier_form.compared", "reference.colliding_name.alone_in_expression.compared",
+		"reference.colliding_name.as_call_argument.compared", "reference.colliding_name.as_operand.compared",
 	}
 }
 
@@ -83,6 +94,8 @@ func (p *c17) ExtraEvidence(tier string, counters map[string]int64) map[string]a
 	return map[string]any{
 		"catalogued_functions":       fns,
 		"function_position_pairs":    len(allPairs),
+		"number_positions":           len(numPositions),
+		"directed_reference_names":   len(directedNamePool),
 		"templates_checked":          counters["templates"],
 		"templates_value_compared":   counters["templates.value_compared"],
 		"excluded_migratable":        "NOW TODAY RAND RANDBETWEEN EPOCH (non-deterministic); TIME TIMEVALUE HOUR MINUTE SECOND FORMAT_DATE (time-of-day / env formatting); REGEX_GROUP READ_DIGITS FORMAT_LOCATION WORD_SLICE-with-negative-stop etc. (legacy meaning not pinned down)",
@@ -593,6 +606,11 @@ func (ck *checker) candidates(root *node, i int) []*node {
 		c.paren = false
 		out = append(out, replaced(root, i, c))
 	}
+	if n.k == kNum && canonicalLit(n.lit) != n.lit {
+		c := n.clone()
+		c.lit = canonicalLit(n.lit)
+		out = append(out, replaced(root, i, c))
+	}
 	if n.k == kStr && len(n.lit) >= 2 && len(n.lit) <= 24 {
 		rs := []rune(n.lit)
 		for j := range rs {
@@ -954,6 +972,15 @@ func (cs *caseState) runTemplate(ck *checker, t *tmpl, tag string) outcome {
 	}
 	nestedOp, nestedFn := false, false
 	hasText, hasAtAt, hasIdent := false, false, false
+	var marks []string // what the template exercises, counted once its value has been compared
+	mark := func(m string) {
+		for _, x := range marks {
+			if x == m {
+				return
+			}
+		}
+		marks = append(marks, m)
+	}
 	for _, s := range t.segs {
 		if s.expr == nil {
 			if s.text != "" {
@@ -967,8 +994,44 @@ func (cs *caseState) runTemplate(ck *checker, t *tmpl, tag string) outcome {
 		if s.ident && s.expr.k == kRef {
 			hasIdent = true
 		}
-		s.expr.walk(func(n, p *node, _ int) {
+		identForm := s.ident && s.expr.k == kRef && !s.expr.paren
+		s.expr.walk(func(n, p *node, idx int) {
 			switch n.k {
+			case kNum:
+				if canonicalLit(n.lit) == n.lit {
+					if p != nil && p.k == kNeg {
+						mark("numform.negative_literal")
+					}
+					if len(n.lit) >= 5 {
+						mark("numform.large_literal")
+					}
+					break
+				}
+				lead := stripLeadingZeros(n.lit) != n.lit
+				if lead {
+					mark("numform.leading_zeros")
+					res.Seen("number_literal_forms", "leading zeros")
+				}
+				if stripTrailingZeros(n.lit) != n.lit {
+					mark("numform.trailing_zeros")
+					res.Seen("number_literal_forms", "trailing fractional zeros")
+				}
+				if p != nil && p.k == kNeg {
+					mark("numform.negative_noncanonical")
+					res.Seen("number_literal_forms", "negated non-canonical literal")
+				}
+				if p != nil && p.k == kCall {
+					res.Seen("number_literal_form_positions", "arg:"+strings.ToLower(p.fn)+"/"+fmt.Sprint(idx))
+					if f := fnByName[p.fn]; f != nil && idx < len(f.params) && (f.params[idx].hint == "index" || f.params[idx].hint == "stop") {
+						mark("numform.index_param_noncanonical")
+						// reads differently in base 8 (010 = 8) or is not a base-8 number at all (08)
+						if ip, _, _ := strings.Cut(n.lit, "."); lead && !strings.Contains(n.lit, ".") && len(strings.TrimLeft(ip, "0")) >= 2 {
+							mark("numform.index_param_octal_lookalike")
+						}
+					}
+				} else if p != nil && p.k == kBin {
+					res.Seen("number_literal_form_positions", "operand:"+opName(p.op))
+				}
 			case kCall:
 				res.Seen("functions", n.fn)
 				if p != nil {
@@ -988,6 +1051,30 @@ func (cs *caseState) runTemplate(ck *checker, t *tmpl, tag string) outcome {
 					res.Count("literal.with_doubled_quote", 1)
 				}
 			case kRef:
+				if d := ck.b.dynRefOf(n.ref); d != nil {
+					res.Seen("reference_scope_forms", d.scope)
+					if d.kind == "builtin" {
+						mark("reference.builtin_property")
+						break
+					}
+					class := nameClass(d.name)
+					res.Seen("reference_name_classes", d.kind+" "+class)
+					mark("reference.drawn_name")
+					if class != "plain" {
+						mark("reference.colliding_name")
+						switch {
+						case identForm:
+							mark("reference.colliding_name.identifier_form")
+						case p == nil:
+							mark("reference.colliding_name.alone_in_expression")
+						case p.k == kCall:
+							mark("reference.colliding_name.as_call_argument")
+						default:
+							mark("reference.colliding_name.as_operand")
+						}
+					}
+					break
+				}
 				res.Seen("references", n.ref)
 			case kBin:
 				res.Seen("operators", n.op)
@@ -1010,6 +1097,9 @@ func (cs *caseState) runTemplate(ck *checker, t *tmpl, tag string) outcome {
 	}
 	if o.compared > 0 && o.clause == "" {
 		res.Count("templates.value_compared", 1)
+		for _, m := range marks {
+			res.Count(m+".compared", 1)
+		}
 		if nestedOp {
 			res.Count("nested.fn_under_operator", 1)
 		}
